@@ -33,6 +33,22 @@ Theorem C34_partial :
 Proof. exact mon_C34_partial. Qed.
 Print Assumptions C34_partial.
 
+(* The two other legs of the argument, for EVERY history: once the broker has dropped the connection
+   (or any other termination cause occurred) the session ends within 100 ms - clause (13,2), reported
+   by the C34 check as clause 2 when the cause is the broker's close - and a connect exchange that
+   stays half-open ends the session after 5 s - clause (10,1), reported as clause 3. *)
+Theorem C34_ends_after_broker_close :
+  forall cfg evs, wf_cfg cfg -> Forall wf_event evs -> fuel_ok_run cfg (init_state cfg) evs ->
+    only_props [13] (mon_run cfg (init_state cfg) mon_init evs) = [].
+Proof. exact mon_C13_sound. Qed.
+Print Assumptions C34_ends_after_broker_close.
+
+Theorem C34_half_open_connect_ends :
+  forall cfg evs, wf_cfg cfg -> Forall wf_event evs -> fuel_ok_run cfg (init_state cfg) evs ->
+    only_props [10] (mon_run cfg (init_state cfg) mon_init evs) = [].
+Proof. exact mon_C10_sound. Qed.
+Print Assumptions C34_half_open_connect_ends.
+
 Example C34_nonvacuous :
   fuel_ok_run ex_cfg (init_state ex_cfg) ex_ordinary.
 Proof. exact fuel_ok_ordinary. Qed.
